@@ -417,7 +417,7 @@ def main(argv):
         "wall_s": round(wall, 2),
         "violations": len(violations),
     }
-    if not only:
+    if not only and not os.environ.get("KVERIF_NO_EVIDENCE"):
         os.makedirs(os.path.join(HOME, "evidence"), exist_ok=True)
         with open(os.path.join(HOME, "evidence", f"{prop_id}.json"), "w") as fh:
             json.dump(evidence, fh, indent=1, default=str)
